@@ -67,6 +67,9 @@ def small_len(c, name):
     return Int(v, False)
 
 
+TMP_KEY = 'snap/with_extension/tmp'      # how the file model names path.with_extension("tmp")
+
+
 def frun(st, fname, args):
     st.frames = []
     exf.call(st, fname, args)
@@ -84,7 +87,7 @@ def loaded_from(r):
     return getattr(src, 'lazy', None) or 'unknown-router'
 
 
-ck.declare('F1_save_load_roundtrip', 'save_v3_with_compression(router, path, compress) then load(path); compress on/off; image 1..3 bytes; any entry-count estimate',
+ck.declare('F1_save_load_roundtrip', 'save_v3_with_compression(router, path, compress) then load(path); compress on/off; image 1..3 bytes; any entry-count estimate; with and without a longer temporary file left by an earlier interrupted save',
            'save returns Ok, the temporary file is gone, and load returns the router restored from exactly the snapshot object that was saved')
 ck.declare('F2_interrupted_save_old_or_new', 'a previous complete snapshot at path (or none), then a save cut at every length of the temporary file and on either side of the rename',
            'load(path) gives the previous snapshot while the rename has not happened (NotFound when there was none) and the new one afterwards; never an error or a mixture')
@@ -93,7 +96,7 @@ LIMG = (1, 2) if T == 'quick' else (1, 2, 3)
 for compress in (False, True):
     for L in LIMG:
         for ZL in ((1,) if not compress else ((1, 2) if T == 'quick' else (1, 2, 3))):
-            for have_old in (False, True):
+            for have_old, stale_tmp in ((False, False), (True, False), (True, True), (False, True)):
                 st = exf.new_state()
                 st.env['codec_len'] = L
                 st.env['z_len'] = ZL
@@ -113,11 +116,14 @@ for compress in (False, True):
                         continue
                     cur = g[0].st
                     old_name = [x[1].lazy for x in cur.notes if x[0] == 'snapshot_taken'][-1]
-                pre_files = {k: list(v.data) for k, v in fs(cur).items()}
+                if stale_tmp:
+                    # a temporary file left behind by an earlier interrupted save, longer than anything this save writes
+                    fs(cur)[TMP_KEY] = FileObj([Int(z3.BitVec(f'stale{i}', 8), False) for i in range(40)], 40)
+                pre_files = {k: list(v.data) for k, v in fs(cur).items() if k != TMP_KEY}
                 rs = frun(cur, 'save_v3_with_compression', [ref(cur.roots['router']), ref(path), z3.BoolVal(compress)])
                 ck.note_path_problem(rs, f'save compress={compress} L={L}')
                 for r in rs:
-                    wit0 = {'files': True, 'compress': compress, 'image_len': L, 'zlen': ZL, 'previous': have_old}
+                    wit0 = {'files': True, 'compress': compress, 'image_len': L, 'zlen': ZL, 'previous': have_old, 'stale_tmp': stale_tmp}
                     if r.status == 'panic' or (r.status == 'return' and r.retval.variant != 'Ok'):
                         ck.require(exf, 'F1_save_load_roundtrip', r.pc, None, z3.BoolVal(False), lambda m, w=dict(wit0, stage='save', outcome=str(r.status)): w, lambda m, w: 'save-failed')
                         continue
@@ -148,7 +154,7 @@ for compress in (False, True):
                             del d[k]
                         for k, v in pre_files.items():
                             d[k] = FileObj(list(v), len(v))
-                        d['snap.tmp'] = FileObj(list(new_bytes[:cut]), cut)
+                        d[TMP_KEY] = FileObj(list(new_bytes[:cut]), cut)
                         rl = frun(s2, 'load', [ref(Str(text='snap'))])
                         ck.note_path_problem(rl, 'load after interrupted save')
                         for r3 in rl:
@@ -165,7 +171,7 @@ ck.functions += ['snapshot::save_v3_with_compression', 'snapshot::load', 'snapsh
 
 
 def files_replay(w):
-    rep = Replay.call({'op': 'snapshot_files', **{k: w[k] for k in ('compress', 'previous', 'stage', 'estimate_zero') if k in w}, 'cut': w.get('cut', 0), 'total': w.get('total', 1)})
+    rep = Replay.call({'op': 'snapshot_files', **{k: w[k] for k in ('compress', 'previous', 'stage', 'estimate_zero', 'stale_tmp') if k in w}, 'cut': w.get('cut', 0), 'total': w.get('total', 1)})
     if w.get('stage') == 'before-rename':
         want = rep.get('old') if w.get('previous') else None
         got = rep.get('loaded')
